@@ -25,7 +25,8 @@ import SieveModel.Lemmas.Readback
   `command_without_comments_loads_bare`): `from_parser_result` yields one filter per top-level command that is not a
   `require`, in the order of the script, each with that very command as content, enabled unless the command is an `if false`
   wrapper, and with name and description computed from that command's own comments (and its ordinal) alone — nothing is
-  carried over from a neighbouring filter.
+  carried over from a neighbouring filter; `loaded_requirements_are_the_require_commands`: the requirement list is
+  exactly what the `require` commands of the script name, added in order, and nothing else.
 The loader and the renderer are tied to the code by the `factory-roundtrip` correspondence (build → render → parse → load
 → read back, real code against the composed Lean models); the rest of the construction and loading logic of `factory.py`
 is decided by the render → parse → reload oracle.
@@ -186,6 +187,32 @@ theorem loaded_filter_depends_on_its_own_command_only (np dp : Bytes) (ns : List
 theorem command_without_comments_loads_bare (np dp : Bytes) (k : Nat) (f : Node) (h : f.comments = []) :
     (loadedOf np dp k f).description = [] ∧ (loadedOf np dp k f).name = sb "Unnamed rule " ++ B.natToDec k := by
   simp [loadedOf, h, nameDescL]
+
+/-- the extension names a `require` command carries (string or list form) -/
+def capsOf (f : Node) : List Bytes :=
+  match assocGet f.args "capabilities" with
+  | some (.strs _ l) => l
+  | some (.str _ v) => [v]
+  | _ => []
+
+/-- the requirement list after loading: every name of every `require` command, added in script order through the set's own
+    `require` (which skips names already present); no other command contributes and the filters loaded so far do not matter -/
+theorem loaded_requirements_are_the_require_commands (np dp : Bytes) (ns : List Node) (cpt : Nat) (reqs : List Bytes)
+    (acc : List Loaded) :
+    (load np dp ns cpt reqs acc).1 =
+      (ns.filter (fun f => f.name == sb "require")).foldl (fun r f => (capsOf f).foldl Factory.require r) reqs := by
+  induction ns generalizing cpt reqs acc with
+  | nil => simp [load]
+  | cons f r ih =>
+    unfold load
+    by_cases h : (f.name == sb "require") = true
+    · simp only [h, if_true, List.filter_cons_of_pos, List.foldl_cons]
+      rw [ih]
+      rfl
+    · have h' : (f.name == sb "require") = false := by simpa using h
+      simp only [h', Bool.false_eq_true, ↓reduceIte]
+      rw [ih]
+      simp [h']
 end SetLevel
 
 /-- the lexer rules of `sievelib/parser.py` (names, order, patterns, flags, white space) are the modelled ones -/
